@@ -75,9 +75,15 @@ class Histories(Suite):
 
     def gen(self, tier, rng):
         cases = []
-        for _ in range(70 if tier == "quick" else 900):
+        for _ in range(90 if tier == "quick" else 1000):
             ops = [rng.choice(list(OPS)) for _ in range(rng.randint(3, 12))]
-            cases.append({"D": named_dataset(rng, 5, 4), "s": rng.choice([gen.UNIFYING, gen.UNIFYING, gen.UNIFYING_HALF]), "ops": ops,
+            D = named_dataset(rng, 5, 4)
+            if rng.random() < 0.5:
+                # complete datasets without empty rankings: some algorithms take a different path (PickAPerm works on
+                # the dataset's own list of rankings)
+                univ = sorted({e for r in D for b in r for e in b}, key=str)
+                D = [gen.random_ranking(rng, univ, 1.0, rng.choice([1.0, 0.6])) for _ in range(rng.randint(2, 4))]
+            cases.append({"D": D, "s": rng.choice([gen.UNIFYING, gen.UNIFYING, gen.UNIFYING_HALF]), "ops": ops,
                           "name": rng.choice(["", "my data", "None"])})
         return cases
 
